@@ -234,6 +234,7 @@ func Populate(c *abci.Chain, f Features, r *hx.Rng) *World {
 		w.tx("register identity a1", 1, govtypes.NewMsgRegisterIdentityRecords(A(1), []govtypes.IdentityInfoEntry{{Key: "moniker", Info: "alice"}, {Key: "twitter", Info: "@a"}}))
 		w.tx("register identity a2", 2, govtypes.NewMsgRegisterIdentityRecords(A(2), []govtypes.IdentityInfoEntry{{Key: "moniker", Info: "bob"}}))
 		w.tx("request verify (pending)", 1, govtypes.NewMsgRequestIdentityRecordsVerify(A(1), A(2), []uint64{1}, coin("ukex", 300)))
+		w.tx("request verify (pending, a2 -> a1)", 2, govtypes.NewMsgRequestIdentityRecordsVerify(A(2), A(1), []uint64{3}, coin("ukex", 300)))
 		w.tx("request verify (approved)", 1, govtypes.NewMsgRequestIdentityRecordsVerify(A(1), A(3), []uint64{2}, coin("ukex", 300)))
 		w.tx("approve verify", 3, govtypes.NewMsgHandleIdentityRecordsVerifyRequest(A(3), 2, true))
 	}
@@ -282,6 +283,10 @@ func Populate(c *abci.Chain, f Features, r *hx.Rng) *World {
 			_, err := sms.DepositSpendingPool(sdk.WrapSDKContext(c.Ctx()), &spendingtypes.MsgDepositSpendingPool{Sender: A(0).String(), PoolName: "pool1", Amount: sdk.NewCoins(coin("ukex", 1000000))})
 			return err
 		})
+		w.step("register beneficiary a2", func() error {
+			_, err := sms.RegisterSpendingPoolBeneficiary(sdk.WrapSDKContext(c.Ctx()), &spendingtypes.MsgRegisterSpendingPoolBeneficiary{Sender: A(2).String(), PoolName: "pool1"})
+			return err
+		})
 		w.step("register beneficiary", func() error {
 			_, err := sms.RegisterSpendingPoolBeneficiary(sdk.WrapSDKContext(c.Ctx()), &spendingtypes.MsgRegisterSpendingPoolBeneficiary{Sender: A(1).String(), PoolName: "pool1"})
 			return err
@@ -323,6 +328,13 @@ func Populate(c *abci.Chain, f Features, r *hx.Rng) *World {
 		})
 		w.step("add limits", func() error {
 			_, err := cms.AddToLimits(sdk.WrapSDKContext(c.Ctx()), custodytypes.NewMsgAddToCustodyLimits(A(3), "ukex", 1000, "1h", "k3", key("k4"), "", ""))
+			return err
+		})
+	}
+	if f.Recovery {
+		h4 := sha256.Sum256([]byte("secret4"))
+		w.step("register recovery secret a4", func() error {
+			_, err := recoverykeeper.NewMsgServerImpl(app.RecoveryKeeper).RegisterRecoverySecret(sdk.WrapSDKContext(c.Ctx()), &recoverytypes.MsgRegisterRecoverySecret{Address: A(4).String(), Challenge: hex.EncodeToString(h4[:]), Nonce: "00", Proof: ""})
 			return err
 		})
 	}
@@ -437,6 +449,9 @@ func Populate(c *abci.Chain, f Features, r *hx.Rng) *World {
 	evid := []int(nil)
 	if f.ValJailed && len(c.Validators) > 3 {
 		evid = []int{len(c.Validators) - 1}
+		if len(c.Validators) > 4 {
+			evid = append(evid, len(c.Validators)-2)
+		}
 		if len(c.Validators) == 4 && f.Multistaking {
 			evid = nil // keep validator 3's pool intact in the 4-validator layout; jail by keeper below
 		}
@@ -461,6 +476,12 @@ func Populate(c *abci.Chain, f Features, r *hx.Rng) *World {
 			SwapsMin: sdk.NewInt(1), SwapsMax: sdk.NewInt(1000000000), Amount: sdk.ZeroInt(),
 			Tokens: []baskettypes.BasketToken{{Denom: "ubtc", Weight: sdk.NewDec(1), Amount: sdk.ZeroInt(), Deposits: true, Withdraws: true, Swaps: true},
 				{Denom: "xeth", Weight: sdk.NewDec(2), Amount: sdk.ZeroInt(), Deposits: true, Withdraws: true, Swaps: true}}}})
+		w.applyContent("create basket 2", &baskettypes.ProposalCreateBasket{Basket: baskettypes.Basket{Suffix: "b2", Description: "basket 2", SwapFee: sdk.NewDecWithPrec(1, 2), SlipppageFeeMin: sdk.NewDecWithPrec(1, 2),
+			TokensCap: sdk.NewDecWithPrec(9, 1), LimitsPeriod: f.W.BasketLimits, MintsMin: sdk.NewInt(1), MintsMax: sdk.NewInt(1000000000), BurnsMin: sdk.NewInt(1), BurnsMax: sdk.NewInt(1000000000),
+			SwapsMin: sdk.NewInt(1), SwapsMax: sdk.NewInt(1000000000), Amount: sdk.ZeroInt(),
+			Tokens: []baskettypes.BasketToken{{Denom: "ubtc", Weight: sdk.NewDec(1), Amount: sdk.ZeroInt(), Deposits: true, Withdraws: true, Swaps: true},
+				{Denom: "frozen", Weight: sdk.NewDec(3), Amount: sdk.ZeroInt(), Deposits: true, Withdraws: true, Swaps: true}}}})
+		w.tx("basket 2 mint", 1, &baskettypes.MsgBasketTokenMint{Sender: A(1).String(), BasketId: 2, Deposit: sdk.NewCoins(coin("ubtc", 3000))})
 		w.tx("basket mint", 1, &baskettypes.MsgBasketTokenMint{Sender: A(1).String(), BasketId: 1, Deposit: sdk.NewCoins(coin("ubtc", 100000), coin("xeth", 100000))})
 		w.tx("basket mint 2", 2, &baskettypes.MsgBasketTokenMint{Sender: A(2).String(), BasketId: 1, Deposit: sdk.NewCoins(coin("ubtc", 50000), coin("xeth", 70000))})
 		w.tx("basket burn", 1, &baskettypes.MsgBasketTokenBurn{Sender: A(1).String(), BasketId: 1, BurnAmount: coin("b1/b1", 1000)})
@@ -468,6 +489,10 @@ func Populate(c *abci.Chain, f Features, r *hx.Rng) *World {
 	}
 	if f.Spending {
 		sms := spendingkeeper.NewMsgServerImpl(app.SpendingKeeper, app.CustomGovKeeper, app.BankKeeper)
+		w.step("claim spending pool a2", func() error {
+			_, err := sms.ClaimSpendingPool(sdk.WrapSDKContext(c.Ctx()), &spendingtypes.MsgClaimSpendingPool{Sender: A(2).String(), PoolName: "pool1"})
+			return err
+		})
 		w.step("claim spending pool", func() error {
 			_, err := sms.ClaimSpendingPool(sdk.WrapSDKContext(c.Ctx()), &spendingtypes.MsgClaimSpendingPool{Sender: A(1).String(), PoolName: "pool1"})
 			return err
@@ -517,6 +542,21 @@ func Populate(c *abci.Chain, f Features, r *hx.Rng) *World {
 			_, err := rms.RegisterRRTokenHolder(sdk.WrapSDKContext(c.Ctx()), &recoverytypes.MsgRegisterRRTokenHolder{Holder: A(0).String()})
 			return err
 		})
+		if len(c.Validators) > 3 {
+			h3 := sha256.Sum256([]byte("secret3"))
+			w.step("register recovery secret validator a3", func() error {
+				_, err := rms.RegisterRecoverySecret(sdk.WrapSDKContext(c.Ctx()), &recoverytypes.MsgRegisterRecoverySecret{Address: A(3).String(), Challenge: hex.EncodeToString(h3[:]), Nonce: "00", Proof: ""})
+				return err
+			})
+			w.step("issue recovery tokens a3", func() error {
+				_, err := rms.IssueRecoveryTokens(sdk.WrapSDKContext(c.Ctx()), &recoverytypes.MsgIssueRecoveryTokens{Address: A(3).String()})
+				return err
+			})
+			w.step("register rr token holder a3", func() error {
+				_, err := rms.RegisterRRTokenHolder(sdk.WrapSDKContext(c.Ctx()), &recoverytypes.MsgRegisterRRTokenHolder{Holder: A(3).String()})
+				return err
+			})
+		}
 	}
 	w.end()
 	// voting of the enactment-phase proposal ends during the next block; the proposal that is to be
@@ -528,6 +568,11 @@ func Populate(c *abci.Chain, f Features, r *hx.Rng) *World {
 		}
 	}
 	w.begin(dt, absent, nil)
+	if f.Basket {
+		w.tx("basket mint (later block)", 2, &baskettypes.MsgBasketTokenMint{Sender: A(2).String(), BasketId: 1, Deposit: sdk.NewCoins(coin("ubtc", 700), coin("xeth", 900))})
+		w.tx("basket burn (later block)", 1, &baskettypes.MsgBasketTokenBurn{Sender: A(1).String(), BasketId: 1, BurnAmount: coin("b1/b1", 500)})
+		w.tx("basket swap (later block)", 2, &baskettypes.MsgBasketTokenSwap{Sender: A(2).String(), BasketId: 1, Pairs: []baskettypes.SwapPair{{InAmount: coin("ubtc", 500), OutToken: "xeth"}}})
+	}
 	if f.ProposalVoting {
 		pv := gtx("token black/white (in voting)", tokenstypes.NewTokensWhiteBlackChangeProposal(true, true, []string{"xeth"}), 0)
 		vote(pv, 0, govtypes.OptionYes)
@@ -541,6 +586,11 @@ func Populate(c *abci.Chain, f Features, r *hx.Rng) *World {
 		// address rotation just before the export: x/recovery rewrites the state other modules hold for a5
 		w.begin(5, absent, nil)
 		rms := recoverykeeper.NewMsgServerImpl(app.RecoveryKeeper)
+		w.step("rotate recovery address a4", func() error {
+			_, err := rms.RotateRecoveryAddress(sdk.WrapSDKContext(c.Ctx()), &recoverytypes.MsgRotateRecoveryAddress{FeePayer: A(4).String(), Address: A(4).String(),
+				Recovery: sdk.AccAddress([]byte("rotated_a4__________")).String(), Proof: hex.EncodeToString([]byte("secret4"))})
+			return err
+		})
 		w.step("rotate recovery address a5", func() error {
 			_, err := rms.RotateRecoveryAddress(sdk.WrapSDKContext(c.Ctx()), &recoverytypes.MsgRotateRecoveryAddress{FeePayer: A(5).String(), Address: A(5).String(),
 				Recovery: sdk.AccAddress([]byte("rotated_a5__________")).String(), Proof: hex.EncodeToString([]byte("secret"))})
